@@ -119,6 +119,10 @@ func main() {
 			defer pprof.StopCPUProfile()
 		}
 		spec.Run(ctx)
+		if *tier == "thorough" {
+			ctx.ruleCallGraphCross()
+			ctx.ruleNoUnsafe()
+		}
 	}()
 	if *list || *only != "" {
 		for _, o := range ctx.rep.Obls {
